@@ -45,6 +45,10 @@ TRUSTED = [
     'rationals; agreement decided in Coq (vm_compute within 1e-12 relative for the exact stream, Interval enclosures at 100 bits '
     'within 1e-9 mixed tolerance + conditioning for the transcendental stream); numpy calls made inside mathfuncs.py are recorded '
     'by replacing the module global `np` with a recording proxy for the duration of the call',
+    'axioms under Print Assumptions: the classical real numbers of the standard library (ClassicalDedekindReals.sig_forall_dec, '
+    'sig_not_dec, FunctionalExtensionality.functional_extensionality_dep, Classical_Prop.classic) for every theorem over R; '
+    'additionally, for C15_pi_and_e_are_the_nearest_doubles only, the Uint63/PrimInt63 primitive-integer specifications that '
+    'Interval computes with',
     'modelled, not verified: numpy/libm accuracy and IEEE rounding (certified point-wise, not for all arguments), numpy complex '
     'continuations (checked by identities only), np.linalg.det/norm algorithms, inspect.signature / ufunc.nin (arity oracle), '
     'the text numpy passes to the seterr callback, Python min/max on floats',
@@ -615,7 +619,10 @@ def table_terms(res):
                     kind, n = 0, 0
             rows.append('(%s, %s, %s, %s, %s)' % (boollit(tname == 'matrix'), coq_string(name), boollit(validated), natlit(kind), natlit(n)))
     # identity of the targets named by the regenerated table (python view of Gen, parsed from the same translator run)
-    gen_text = tr_mathfuncs.generate()
+    try:
+        gen_text = tr_mathfuncs.generate()
+    except Exception:      # noqa -- the driver already reports the failed translation as a broken obligation
+        gen_text = ''
     for tname, block in (('formula', None), ('matrix', None)):
         t = T[tname]
         for m in re.finditer(r'\("(\w+)", \(mkF \((TNp|TScimath|TLinalg|TLocal|TBuiltin|TLambda) "(\w+)"\)', gen_text):
